@@ -379,8 +379,28 @@ func calHandler(args []string) (string, []string) {
 	ct := c.ct
 	switch {
 	case op == "jdto" && len(nums) == 1:
-		d := ct.JdTo(nums[0])
-		return fmt.Sprintf("%d %d %d", d.Year, d.Month, d.Day), nil
+		var ps propSink
+		jd := nums[0]
+		d := ct.JdTo(jd)
+		resp := fmt.Sprintf("%d %d %d", d.Year, d.Month, d.Day)
+		// the clauses that speak about this one day (C01 round trip, C02 well-formed, C03 rule)
+		if back := ct.ToJd(lib.NewDate(d.Year, d.Month, d.Day)); back != jd {
+			ps.add("C01", "cfg=%s jd=%d date=%s ToJd(date)=%d (single question, after the questions asked before it in this process)", c.name, jd, dateStr(d), back)
+		}
+		ml := int(ct.GetMonthLen(d.Year, d.Month))
+		if d.Month < 1 || d.Month > 12 || d.Day < 1 || int(d.Day) > ml || (c.skipYear0 && d.Year == 0) {
+			ps.add("C02", "cfg=%s jd=%d date=%s ill-formed (month length %d; single question, after the questions asked before it)", c.name, jd, dateStr(d), ml)
+		}
+		ry, rm, rd := c.rule.date(jd)
+		if c.name == "hij-t" {
+			if ty, tm, td, ok := hijTableDate(jd); ok {
+				ry, rm, rd = ty, tm, td
+			}
+		}
+		if d.Year != ry || int(d.Month) != rm || int(d.Day) != rd {
+			ps.add("C03", "cfg=%s jd=%d date=%s rule-date=%d/%d/%d (single question, after the questions asked before it)", c.name, jd, dateStr(d), ry, rm, rd)
+		}
+		return resp, ps.out()
 	case op == "tojd" && len(nums) == 3:
 		return strconv.Itoa(ct.ToJd(lib.NewDate(nums[0], uint8(nums[1]), uint8(nums[2])))), nil
 	case op == "leap" && len(nums) == 1:
@@ -421,6 +441,17 @@ func calJdRange(c *calCfg, list bool, lo, hi int) (string, []string) {
 	}
 	// the property clauses on one day, given what JdTo returned for it
 	checkDay := func(jd int, d *lib.Date, how string) *lib.Date {
+		// a result belongs to the caller: changing it must not change what the calendar answers next
+		if how == "" {
+			saved := *d
+			d.Year, d.Month, d.Day = d.Year+1000, 99, 99
+			if again := ct.JdTo(jd); *again != saved {
+				for _, p := range []string{"C01", "C03"} {
+					ps.add(p, "cfg=%s jd=%d date=%s: after the caller changed that result, JdTo of the same day gives %s (results share memory)", c.name, jd, dateStr(&saved), dateStr(again))
+				}
+			}
+			*d = saved
+		}
 		// C01 (day number -> date -> day number); ToJd must leave the date it is given alone
 		dy, dm, dd := d.Year, d.Month, d.Day
 		back := ct.ToJd(d)
